@@ -450,6 +450,71 @@ def expand_quantifiers(paths: list, ev=None) -> list:
     return out
 
 
+_BOOL_HEADS = ("not", "and", "or")
+
+
+def split_boolean_data(paths: list, ev=None) -> list:
+    """`separated = not has_path(..); return Record(separated=separated)` and `if has_path(..): return Record(separated=False) ...` are the
+    same function: a boolean expression stored as DATA (a record field, an argument) is turned into a case distinction of the path -- the
+    field is then the constant True / False on either side."""
+    from dataclasses import replace
+
+    def find(t: Any, depth: int = 0):
+        if not isinstance(t, tuple) or depth > 8:
+            return None
+        if is_term(t):
+            h = t[0]
+            if h in ("comp", "lam", "accum", "any", "all", "forall-not", "iter-elem", "after-iteration", "ite", "bigunion"):
+                return None
+            if h == "rec":
+                for _k, v in t[2]:
+                    if is_term(v) and v[0] in _BOOL_HEADS:
+                        return v
+                    r = find(v, depth + 1)
+                    if r is not None:
+                        return r
+                return None
+            if h in ("call", "meth", "new", "recurse"):
+                args = (t[2], t[3]) if h != "meth" else (t[3], t[4])
+                for v in args[0]:
+                    if is_term(v) and v[0] in _BOOL_HEADS:
+                        return v
+                    r = find(v, depth + 1)
+                    if r is not None:
+                        return r
+                for _k, v in args[1]:
+                    if is_term(v) and v[0] in _BOOL_HEADS:
+                        return v
+                    r = find(v, depth + 1)
+                    if r is not None:
+                        return r
+                if h == "meth":
+                    return find(t[1], depth + 1)
+                return None
+            return None
+        return None
+
+    out = []
+    work = list(paths)
+    budget = 64
+    while work:
+        p = work.pop(0)
+        b = find(p.value) if p.kind == "return" and budget > 0 else None
+        if b is None:
+            out.append(p)
+            continue
+        budget -= 1
+        neg = b[1] if b[0] == "not" else ("not", b)
+
+        def sub(val, _b=b):
+            def fn(s_):
+                return val if s_ == _b else None
+            return fn
+        work.insert(0, replace(p, conds=tuple(p.conds) + (neg,), value=mapterm(p.value, sub(("const", False)))))
+        work.insert(0, replace(p, conds=tuple(p.conds) + (b,), value=mapterm(p.value, sub(("const", True)))))
+    return out
+
+
 def _next_search(c: Term):
     neg = False
     while c[0] == "not":
@@ -509,6 +574,33 @@ def _structural(t: Any) -> bool:
     if h == "call" and isinstance(t[1], str) and t[1].split(".")[-1] in STRUCTURAL_CALLS:
         return True
     return False
+
+
+IDIOM_CALLS = {"range", "len", "zip", "repeat", "enumerate", "next", "iter", "islice", "takewhile", "dropwhile", "combinations", "permutations",
+               "product", "chain", "from_iterable", "combinations_with_replacement",
+               "accumulate", "starmap", "partial", "reduce", "cycle", "count", "tee", "zip_longest", "compress", "pairwise", "deque",
+               "sum", "min", "max"}
+
+
+AGGREGATES = {"len", "sum", "min", "max", "count"}
+
+
+def _idiom_marks(t: Any, aggregates: bool = False) -> frozenset:
+    """The control / container idioms a term is spelt with (positional access by a computed index, range / zip / next / iter ..., star
+    arguments, unresolved function values, loop summaries).  Two differing sub-terms spelt with DIFFERENT idioms are first of all two
+    different ways of writing something -- which the normaliser did not relate --, not two different operands."""
+    marks = set()
+    for s_ in subterms_of(t):
+        h = s_[0]
+        if h == "index" and len(s_) == 3 and is_term(s_[2]) and s_[2][0] != "const":
+            marks.add("index[computed]")
+        elif h == "call" and isinstance(s_[1], str) and s_[1].split(".")[-1] in IDIOM_CALLS and (aggregates or s_[1].split(".")[-1] not in AGGREGATES):
+            marks.add(s_[1].split(".")[-1])
+        elif h in ("star", "firsthit", "apply", "localdef", "global"):
+            marks.add(h)
+        elif aggregates and h in ("after-iteration", "accum", "mut", "slice", "lam", "unknown"):
+            marks.add(h)
+    return frozenset(marks)
 
 
 def _atoms_table(t: Any):
@@ -675,7 +767,7 @@ class Outcome:
         self.path = path
         self.kind = path.kind
         ren = _witness_renaming(path.conds)
-        self.conds = tuple(sa.rewrite(subst(c, ren)) for c in path.conds)
+        self.conds = tuple(sa.rewrite(post(subst(c, ren)) if post is not None else subst(c, ren)) for c in path.conds)
         self.guard = norm_formula(f_and(*[sa.cond(c) for c in self.conds]))
         if path.kind == "raise":
             self.value: Any = exc_class(path)
@@ -777,6 +869,7 @@ def compare_with_reference(model: Model, impl_q: str, ref_q: str, types: dict[st
     pi, pr = lam_refs(pi, model, mk_ev), lam_refs(pr, model, mk_ev)
     pi, pr = normalise_items(pi), normalise_items(pr)
     pi, pr = resolve_ites(pi), resolve_ites(pr)
+    pi, pr = split_boolean_data(pi, ev_i), split_boolean_data(pr, ev_r)
     pi, pr = expand_quantifiers(pi, ev_i), expand_quantifiers(pr, ev_r)
     if alias:
         # the definition's name for a helper stands for the routine the repository uses in that role (found by its position in the call graph)
@@ -834,11 +927,19 @@ def compare_with_reference(model: Model, impl_q: str, ref_q: str, types: dict[st
             verdict = "REFUTED"
             if a.kind != b.kind:
                 d = f"the implementation {'raises ' + str(a.value) if a.kind == 'raise' else 'returns'} where the definition {'raises ' + str(b.value) if b.kind == 'raise' else 'returns a value'}"
+                if _idiom_marks(tuple(a.conds), True) != _idiom_marks(tuple(b.conds), True):
+                    # the two guards are spelt with different idioms (a count, an index scan, an iterator protocol ...) which the normaliser
+                    # did not relate: that they overlap is not evidence of a different decision
+                    verdict = "UNKNOWN"
+                    d = "the guards are written in idioms the normaliser cannot relate: " + d
             else:
                 x, y = first_difference(a.value, b.value)
                 d = f"implementation has `{_sh(x)}` where the definition has `{_sh(y)}`"
                 leaves = all_differences(a.value, b.value)
-                if leaves and all(_structural(u) and _structural(v) for u, v in leaves):
+                def _tainted(u, v):
+                    mu, mv = _idiom_marks(u), _idiom_marks(v)
+                    return bool(mu - mv) and bool(mv - mu)  # each side uses an idiom the other does not: two spellings, not two operands
+                if leaves and all((_structural(u) and _structural(v)) or _tainted(u, v) for u, v in leaves):
                     # the two sides are built by different idioms at this point (loop vs comprehension, different container, ...): the
                     # normaliser cannot relate them -- a recognition failure, not a witness of different operands
                     verdict = "UNKNOWN"
@@ -846,6 +947,14 @@ def compare_with_reference(model: Model, impl_q: str, ref_q: str, types: dict[st
             cond = show_formula(joint_guard(a, b, sa))
             if _os.environ.get("YV_DEBUG_CMP") and _os.environ["YV_DEBUG_CMP"] in impl_q:
                 print(f"== MISMATCH impl path {oi.index(a)} vs ref path {orf.index(b)}: {verdict}: {d[:300]}")
+                from .setalg import atoms_of as _ao
+                xa, xb = set(_ao(a.guard)), set(_ao(b.guard))
+                only_a, only_b = sorted(xa - xb, key=repr), sorted(xb - xa, key=repr)
+                for u in only_a:
+                    for v in only_b:
+                        if u[0] == v[0]:
+                            for fd in all_differences(u, v)[:4]:
+                                print("   atom pair differs at:", show(fd[0])[:600] if is_term(fd[0]) else fd[0], "\n        vs", show(fd[1])[:600] if is_term(fd[1]) else fd[1])
             res = (f, verdict, f"{d}  [on inputs with: {cond[:int(__import__("os").environ.get("YV_GUARD_CHARS", "300"))]}] (line {a.path.line})", sample)
             if verdict == "REFUTED":
                 return res
